@@ -2550,6 +2550,16 @@ impl KotoVm {
                         match value {
                             Tuple(new_entry) if new_entry.len() == 2 => {
                                 let key = ValueKey::try_from(new_entry[0].clone())?;
+                                // The new key must not collide with another entry: `insert` would
+                                // then overwrite that entry instead of appending, and
+                                // `swap_indices` below would index past the end of the map.
+                                if let Some(existing) = map_data.get_index_of(&key)
+                                    && existing != u_index
+                                {
+                                    return runtime_error!(
+                                        "the key is already in use by the entry at index {existing}"
+                                    );
+                                }
                                 // There's no API on IndexMap for replacing an entry,
                                 // so use swap_remove_index to remove the old entry,
                                 // then insert the new entry at the end of the map,
